@@ -37,7 +37,12 @@ RULE = ('solution histories in polar form (magnitudes 2^k or k/4; phases k/odd t
         'lists of streams / types / stream.type) on l1 / l2 streams registered by add_applycal_sensors from raw solutions '
         '(1-2 substreams, a substream lacking a product, cal antennas a subset of the data antennas, missing spectral '
         'attributes); (O) whole VisibilityDataV4 data sets: 0-2 cal and 0-2 imager streams (0-2 targets) in telstate, '
-        'archived or not, in any order, 6 requests each; (T) 2-3 data sets opened one after the other and kept open.  '
+        'archived or not, in any order, 6 requests each; (L) whole data sets whose sdp_archived_streams lists SEVERAL streams '
+        'of each type in random order: 0-3 sdp.cal streams (some untyped / wrongly typed / unarchived / without cal input '
+        'map), 1-4 imager streams each with 1-3 self-cal targets / an empty targets dict / no targets attribute / another '
+        'stream type / unarchived (half of the layouts put an imager without targets before a productive one), unknown '
+        'names; 4 requests each (default + 3 of 14 forms); observed: applycal_products, which stream\'s solutions the l1 / '
+        'l2 product sensors hold, the l2 corrections; (T) 2-3 data sets opened one after the other and kept open.  '
         'B, G and E outputs are compared with the documented-decision spec and with the source-following model.  A case '
         'is non-trivial when it has >= 2 valid solutions (ci/B/G), >= 1 missing piece (S), a non-empty request (N), or '
         'some but not all expanded products present (P0/P1/O); distinct by its full canonical input.')
@@ -55,6 +60,8 @@ ASSUMPTIONS = [
     'katpoint.Target(name | alias, radec, ...) exposes .name and .aliases',
     'data sets have at least one data input; the self-cal substreams of one imager stream share antennas, polarisations '
     'and channel count; solutions of different substreams have different timestamps',
+    'names in sdp_archived_streams are non-empty and listed once; the targets of one imager have distinct names; '
+    'telstate.join(a, b) is a + \'_\' + b',
     'harness SensorCaches are built with their own virtual={} (the default argument of SensorCache is one shared dict); '
     'every `opened` case first drops applycal templates left in visdatav4.VIRTUAL_SENSORS by earlier data sets (no-op '
     'with the fix of finding C14-F1) - what data sets do to each other is checked by the two_sets stream',
@@ -1296,19 +1303,49 @@ def gen_products(rng):
 # ------------------------------------------------------------------ (O) whole data sets opened with applycal=...
 
 def wire_tel(tel):
-    return [[codes(st['name']), codes(st['type'] or ''), [codes(t) for t in (st['targets'] or [])],
+    # `targets`: [] = the attribute is absent, [[names]] = present (possibly empty)
+    return [[codes(st['name']), codes(st['type'] or ''),
+             [] if st['targets'] is None else [[codes(t) for t in st['targets']]],
              [codes(a + p) for p in st['pols'] for a in st['ants']], int(bool(st['spectral'])),
              [codes(t) for t in st['types']]] for st in tel]
 
 
-def spec_opened(req, tel, archived, inputs):
-    """documented behaviour of a data set, independent of the Coq model: L1 = first archived sdp.cal stream (else
-    'cal'), L2 = the <stream>_<target>_selfcal substreams of the first archived imager stream with targets"""
+CAL_TYPE, IMAGE_TYPE = 'sdp.cal', 'sdp.continuum_image'
+
+
+def spec_discover(tel, archived):
+    """the documented choice over the whole list sdp_archived_streams, independent of the Coq model: L1 = the first
+    archived sdp.cal stream (else 'cal'); L2 = the <imager>_<target>_selfcal substreams of the first archived imager
+    stream THAT HAS self-cal targets (an imager whose `targets` is empty or absent is passed over wherever it stands)"""
     by = {st['name']: st for st in tel}
-    cals = [n for n in archived if n in by and by[n]['type'] == 'sdp.cal']
+    cals = [n for n in archived if n in by and by[n]['type'] == CAL_TYPE]
     l1 = cals[0] if cals else 'cal'
-    imgs = [n for n in archived if n in by and by[n]['type'] == 'sdp.continuum_image' and by[n]['targets']]
+    imgs = [n for n in archived if n in by and by[n]['type'] == IMAGE_TYPE and by[n]['targets']]
     l2 = ['%s_%s_selfcal' % (imgs[0], t) for t in by[imgs[0]]['targets']] if imgs else []
+    return l1, l2
+
+
+def layout_shape(tel, archived, full=False):
+    """shape of the archived-stream layout for signatures: '' for at most one sdp.cal and one imager stream, else
+    ';cals=multi' and ';imagers=productive_first | <empty|absent>_before_productive | none_productive' (archived imager
+    streams in order: productive | empty | absent `targets`); full=True: the whole pattern (input distribution)"""
+    by = {st['name']: st for st in tel}
+    cals = [n for n in archived if n in by and by[n]['type'] == CAL_TYPE]
+    kinds = ['productive' if by[n]['targets'] else 'absent' if by[n]['targets'] is None else 'empty'
+             for n in archived if n in by and by[n]['type'] == IMAGE_TYPE]
+    out = ''
+    if len(cals) > 1:
+        out += ';cals=%d' % len(cals) if full else ';cals=multi'
+    if len(kinds) > 1:
+        out += ';imagers=' + ('>'.join(kinds) if full else 'none_productive' if 'productive' not in kinds else
+                              'productive_first' if kinds[0] == 'productive' else kinds[0] + '_before_productive')
+    return out
+
+
+def spec_opened(req, tel, archived, inputs):
+    """documented behaviour of a data set, independent of the Coq model"""
+    by = {st['name']: st for st in tel}
+    l1, l2 = spec_discover(tel, archived)
     streams = []
     for alias, attrs_of, subs in (('l1', l1, [l1]), ('l2', l2[0] if l2 else None, l2)):
         st = by.get(attrs_of)
@@ -1370,7 +1407,10 @@ def l2_corrections_mismatch(ctx, case, d):
     for t in ('GPHASE', 'GAMP_PHASE', 'G'):
         if not all(n in by and t in by[n]['types'] for n in l2):
             continue
-        prod = get_cal_product(d.sensor, 'l2', t)
+        try:
+            prod = get_cal_product(d.sensor, 'l2', t)
+        except Exception as e:       # noqa: BLE001
+            return t, 'product_raises', 'raises:' + type(e).__name__, None
         events, sols = [], []
         for e, v in cat_segments(prod):
             events.append(e)
@@ -1399,16 +1439,41 @@ def l2_corrections_mismatch(ctx, case, d):
 def spec_streams(tel, archived):
     """(registered aliases, underlying L2 substreams) by the documented discovery rule"""
     by = {st['name']: st for st in tel}
-    cals = [n for n in archived if n in by and by[n]['type'] == 'sdp.cal']
-    l1 = cals[0] if cals else 'cal'
-    imgs = [n for n in archived if n in by and by[n]['type'] == 'sdp.continuum_image' and by[n]['targets']]
-    l2 = ['%s_%s_selfcal' % (imgs[0], t) for t in by[imgs[0]]['targets']] if imgs else []
+    l1, l2 = spec_discover(tel, archived)
     reg = []
     for alias, attrs_of in (('l1', l1), ('l2', l2[0] if l2 else None)):
         st = by.get(attrs_of)
         if st is not None and st['ants'] and st['pols'] and st['spectral']:
             reg.append(alias)
     return reg, l2
+
+
+def l1_product_mismatch(ctx, case, d):
+    """WHICH sdp.cal stream became 'l1': the raw samples of Calibration/Products/l1/<type> must be the solution the
+    fixture stored in the documented L1 stream (every stream's solution has its own timestamp and, for gain types, its
+    own value 2^-(k+1))"""
+    from fixtures.c14streams import solution_offset
+    reg, _ = spec_streams(case['tel'], case['archived'])
+    if 'l1' not in reg:
+        return None
+    l1, _ = spec_discover(case['tel'], case['archived'])
+    k, st = [(k, st) for k, st in enumerate(case['tel']) if st['name'] == l1][0]
+    for t in st['types']:
+        want_ts = Fr(solution_offset(k, st))
+        try:
+            sd = d.sensor.get('Calibration/Products/l1/' + t, extract=False).get()
+        except Exception as e:       # noqa: BLE001
+            return t, 'raises:' + type(e).__name__, [str(want_ts)]
+        t0 = 1600000000.0 + 123.0
+        got_ts = [Fr((float(ts) - t0) / 2.0) for ts in sd.timestamp]
+        ok = got_ts == [want_ts]
+        if ok and t in ('G', 'GPHASE', 'GAMP_PHASE'):
+            v = complex(np.asarray(ComparableArrayWrapper.unwrap(sd.value[0])).ravel()[0])
+            ok = v == complex(0.5 ** (k + 1))
+        ctx.count('opened:l1_product_checked')
+        if not ok:
+            return t, [str(x) for x in got_ts], [str(want_ts)]
+    return None
 
 
 V4_TARGETS = {'A': 'A, radec bpcal, 19:39:25.03, -63:42:45.6', 'B': 'B, radec gaincal, 10:00:00.0, -30:00:00.0',
@@ -1434,13 +1499,14 @@ def check_opened(ctx, case, v=None):
     if own:
         v = build_opened(case)
     isolate_templates()
-    raw_bad = corr_bad = None
+    raw_bad = corr_bad = l1_bad = None
     try:
         if case.get('raw'):
             # on a data set opened without applycal: nothing has been extracted yet, the raw product is still there
             d0 = v4.reopen(v, open_kwargs=dict(applycal=''))
             raw_bad = l2_product_mismatch(ctx, case, d0)
             corr_bad = l2_corrections_mismatch(ctx, case, d0)
+            l1_bad = l1_product_mismatch(ctx, case, d0)
             isolate_templates()
         try:
             d = v4.reopen(v, open_kwargs=dict(applycal=req))
@@ -1457,24 +1523,44 @@ def check_opened(ctx, case, v=None):
     inputs = sorted(a + p for a in case['ants'] for p in 'hv')
     mo = ctx.model([[141, [3, wire_req(req), wire_tel(case['tel']), [codes(n) for n in case['archived']],
                            [codes(i) for i in inputs]]]])[0]
-    mreg = [''.join(chr(c) for c in s) for s in mo[0]]
+    def text(x):
+        return ''.join(chr(c) for c in x)
+    mreg = [text(x) for x in mo[0]]
+    # the Coq spec of discovery / registration (spec_discover, spec_aliases) and the model's walk
+    cspec = ([text(x) for x in mo[3]], text(mo[6]), [text(x) for x in mo[7]]) if len(mo) > 7 else None
+    mwalk = (text(mo[4]), [text(x) for x in mo[5]]) if len(mo) > 7 else None
     mo, mspec = parse_outcome(mo[1]), parse_outcome(mo[2])
     sreg, (want, expanded) = spec_opened(req, case['tel'], case['archived'], inputs)
     form = request_form(req, sreg)
-    sig = 'kind=opened;form=%s;streams=%s;missing=%s' % (form, '+'.join(sreg) or 'none', missing_shape(expanded, want)
-                                                         if isinstance(want, list) else 'n/a')
+    shape = layout_shape(case['tel'], case['archived'])
+    sig = 'kind=opened;form=%s;streams=%s%s;missing=%s' % (form, '+'.join(sreg) or 'none', shape,
+                                                            missing_shape(expanded, want)
+                                                            if isinstance(want, list) else 'n/a')
+    sl1, sl2 = spec_discover(case['tel'], case['archived'])
+    if cspec is not None and (cspec != (sreg, sl1, sl2) or mwalk != (sl1, sl2)):
+        # the walk of the model (which follows the guards regenerated from the source) or the Coq spec is not the
+        # documented choice the harness knows: with an intact proof (C14_discover_is_spec) this cannot happen
+        ctx.disagree('kind=opened;streams=%s%s;symptom=discovery_walk_not_documented_choice' % (
+            '+'.join(sreg) or 'none', shape), case, list(mwalk), [list(cspec), [sreg, sl1, sl2]],
+            'the model of the walk over sdp_archived_streams does not pick the documented L1 / L2 streams',
+            kind='tie')
     if got != want or got != mspec:
         ctx.disagree(sig + ';symptom=%s' % symptom(got, want), case, got, mo,
                      'applycal_products of the opened data set are not the documented expansion of the request over '
                      'the L1 / L2 streams of the data set with missing products skipped / rejected',
                      spec=want if got != want else mspec)
+    if l1_bad:
+        ctx.disagree('kind=opened;streams=%s%s;product=l1.%s;symptom=solutions_of_first_cal_stream' % (
+            '+'.join(sreg) or 'none', shape, l1_bad[0]), case, l1_bad[1], l1_bad[2],
+            'the L1 product of the data set does not hold the solutions of the first archived sdp.cal stream')
     if raw_bad:
-        ctx.disagree('kind=opened;streams=%s;product=l2.%s;symptom=selfcal_solutions_of_all_targets' % (
-            '+'.join(sreg) or 'none', raw_bad[0]), case, raw_bad[1], raw_bad[2],
+        ctx.disagree('kind=opened;streams=%s%s;product=l2.%s;symptom=selfcal_solutions_of_all_targets' % (
+            '+'.join(sreg) or 'none', shape, raw_bad[0]), case, raw_bad[1], raw_bad[2],
             'the self-cal product of the data set is not the time-ordered union of the solutions of every target')
     if corr_bad:
-        ctx.disagree('kind=opened;streams=%s;correction=l2.%s;symptom=%s' % ('+'.join(sreg) or 'none', corr_bad[0],
-                                                                             corr_bad[1]), case, corr_bad[2], corr_bad[3],
+        ctx.disagree('kind=opened;streams=%s%s;correction=l2.%s;symptom=%s' % ('+'.join(sreg) or 'none', shape,
+                                                                               corr_bad[0], corr_bad[1]),
+                     case, corr_bad[2], corr_bad[3],
                      'the self-cal correction of the data set is not the per-target interpolation of the solutions '
                      'derived on the target of each dump', spec=corr_bad[3])
     if got != mo or mreg != sreg:
@@ -1486,6 +1572,8 @@ def check_opened(ctx, case, v=None):
                   sample=case if req == 'all' and len(case['tel']) <= 2 else None)
     ctx.count('opened:' + (want if isinstance(want, str) else 'applied'))
     ctx.count('opened:streams=' + ('+'.join(sreg) or 'none'))
+    if shape:
+        ctx.count('opened:layout' + layout_shape(case['tel'], case['archived'], full=True))
 
 
 def gen_tel(rng):
@@ -1541,6 +1629,106 @@ def gen_tel(rng):
         archived.append('ghost')
     rng.shuffle(archived)
     return dict(tel=tel, archived=archived, ants=ants, T=T, F=2, target_seq=target_seq)
+
+
+LAYOUT_REQUESTS = ['default', 'all', 'l2', 'GPHASE', 'l2.GPHASE', 'l1.G,GPHASE', 'l1', 'G', 'l1.G', 'GAMP_PHASE',
+                   'l2,l1', 'K,B,G,GPHASE', ['l2.GPHASE'], 'l1.K,l1.B,l1.G,GPHASE']
+IMAGER_KINDS = ['productive', 'productive', 'productive', 'empty', 'empty', 'absent', 'absent', 'wrongtype',
+                'unarchived']
+
+
+def gen_layout(rng):
+    """A data set whose sdp_archived_streams lists SEVERAL streams of each type: 0-3 sdp.cal streams (some wrongly
+    typed / untyped / unarchived / without a cal input map), 1-4 imager streams each of which is productive (1-3
+    self-cal targets with well-formed substreams), has an EMPTY `targets` dict, has NO `targets` attribute, has
+    another stream type, or is not archived; other names in between; random order.  Every stream's solutions can be
+    told from every other's (timestamp, gain 2^-(k+1)), the imagers' substreams carry different product types."""
+    ants = ['m000', 'm001'][:rng.randint(1, 2)]
+    T = 6
+    names = ['A', 'B', 'Cee']
+    starts = [0] + sorted(rng.sample(range(1, T), rng.randint(1, 3)))
+    target_seq = []
+    for dd in starts:
+        target_seq.append([dd, rng.choice([n for n in names if not target_seq or n != target_seq[-1][1]])])
+    on = {n: [d for d in range(T) if [x for dd, x in target_seq if dd <= d][-1] == n] for n in names}
+
+    def good(types, **kw):
+        return dict(dict(ants=list(ants), pols=['v', 'h'], spectral=True, n_chans=rng.choice([1, 2]), types=types), **kw)
+    cal_names = rng.sample(['cal', 'cal2', 'calx', 'wide_cal'], rng.choice([0, 1, 1, 2, 2, 3]))
+    img_names = rng.sample(['continuum_image', 'img2', 'narrow_image', 'img_w'], rng.choice([1, 2, 2, 2, 3, 3, 4]))
+    others = rng.sample(['ghost', 'sdp_l0_continuum', 'spectral_image'], rng.choice([0, 0, 1, 2]))
+    order = cal_names + img_names + others + ['sdp_l0']
+    rng.shuffle(order)
+    # the imagers in archived order get their kinds: half of the layouts put an imager without targets first
+    img_order = [n for n in order if n in img_names]
+    kinds = [rng.choice(IMAGER_KINDS) for _ in img_order]
+    r = rng.random()
+    if len(kinds) > 1 and r < 0.5:
+        kinds[0] = rng.choice(['empty', 'absent'])
+        kinds[rng.randrange(1, len(kinds))] = 'productive'
+    elif r < 0.6:
+        kinds = [rng.choice(['empty', 'absent', 'wrongtype']) for _ in kinds]
+    tel, archived = [], []
+    cal_types = [['K', 'B', 'G'], ['G'], ['K', 'G'], ['B', 'G'], ['K', 'B'], ['G', 'GPHASE']]
+    l2_types = [['GPHASE'], ['GPHASE', 'GAMP_PHASE'], ['G', 'GPHASE'], ['GAMP_PHASE']]
+    rng.shuffle(cal_types)
+    rng.shuffle(l2_types)
+    for name in order:
+        listed = True
+        if name in cal_names:
+            r = rng.random()
+            st = good(cal_types.pop(), name=name, targets=None,
+                      type=CAL_TYPE if r < 0.8 else None if r < 0.9 else 'sdp.beamformer_engineering')
+            r = rng.random()
+            if r < 0.08:
+                st['ants'] = []
+            elif r < 0.12:
+                st['spectral'] = False
+            tel.append(st)
+            listed = rng.random() < 0.9
+        elif name in img_names:
+            kind = kinds[img_order.index(name)]
+            with_targets = kind in ('productive', 'wrongtype', 'unarchived')
+            targets = rng.sample(names, rng.randint(1, 3)) if with_targets else [] if kind == 'empty' else None
+            tel.append(dict(name=name, type='sdp.spectral_image' if kind == 'wrongtype' else IMAGE_TYPE,
+                            targets=targets, targets_in_cb=rng.random() < 0.7, ants=[], pols=[], spectral=False,
+                            n_chans=1, types=[]))
+            # an imager that had nothing to image may still have left-over substreams of an earlier run in telstate
+            subs = targets if with_targets else rng.sample(names, 1) if rng.random() < 0.3 else []
+            types = l2_types[img_order.index(name) % len(l2_types)]
+            n_chans = rng.choice([1, 2])
+            # the attributes of the FIRST substream decide whether 'l2' is registered: now and then one substream
+            # (the first, or a later one) lacks its spectral attributes
+            bare = rng.randrange(len(subs)) if subs and rng.random() < 0.2 else None
+            for i, t in enumerate(subs):
+                if rng.random() < 0.93:
+                    sol_dump = rng.choice(on[t]) if on[t] and rng.random() < 0.85 else rng.randrange(T)
+                    sub = good(list(types), name='%s_%s_selfcal' % (name, t), type=None, targets=None,
+                               sol_dump=sol_dump, n_chans=n_chans, spectral=i != bare)
+                    if rng.random() < 0.06:
+                        sub['types'] = []
+                    tel.append(sub)
+            listed = kind != 'unarchived'
+        elif name == 'spectral_image':
+            tel.append(dict(name=name, type='sdp.spectral_image', targets=None, ants=[], pols=[], spectral=False,
+                            n_chans=1, types=[]))
+        if listed:
+            archived.append(name)
+    return dict(tel=tel, archived=archived, ants=ants, T=T, F=2, target_seq=target_seq)
+
+
+def run_layouts(ctx, rng, n_sets, n_req):
+    from fixtures import v4
+    for _ in range(n_sets):
+        base = gen_layout(rng)
+        reqs = ['default'] + [rng.choice(LAYOUT_REQUESTS) for _ in range(n_req - 1)]
+        v = build_opened(base)
+        try:
+            for k, req in enumerate(reqs):
+                check_opened(ctx, dict(base, kind='opened', request=req, raw=(k == 0)), v)
+        finally:
+            v4.cleanup(v)
+        ctx.count('layouts')
 
 
 def opened_requests(rng, n):
@@ -1885,6 +2073,7 @@ def run(ctx):
     timed('select', lambda: many(ctx.scale(400, 6000), check_select, gen_select))
     timed('products', lambda: many(ctx.scale(400, 6000), check_products, gen_products))
     timed('opened', lambda: run_opened(ctx, rng, ctx.scale(40, 300), 6))
+    timed('layouts', lambda: run_layouts(ctx, rng, ctx.scale(100, 1000), 4))
     timed('two_sets', lambda: many(ctx.scale(20, 150), check_two_sets, gen_two_sets))
 
     def normalise_all():
